@@ -163,6 +163,10 @@ struct Corner {
     /// additional analog inputs 1..=extra (g30v1, no event class, never updated): the integrity
     /// response needs several fragments and a fragment runs full in the middle of a run of points
     extra: u16,
+    /// no poll, no unsolicited reporting: the master learns of events only through the
+    /// indications of the responses it receives (event scan on events available); the driver
+    /// issues one command when the updates have stopped
+    scan_only: bool,
 }
 
 pub struct C02 {
@@ -195,7 +199,7 @@ impl Scenario for C02 {
             "unsol{}{}{}-{}-events{}-{}-slots{}-dev{}",
             self.corner.unsol as u8,
             if self.corner.poll { "" } else { "-nopoll" },
-            if self.corner.extra > 0 { format!("-extra{}", self.corner.extra) } else { String::new() },
+            if self.corner.extra > 0 { format!("-extra{}", self.corner.extra) } else if self.corner.scan_only { "-scanonly".to_string() } else { String::new() },
             if self.corner.small { "249" } else { "2048" },
             self.corner.events,
             if self.corner.close { "close" } else { "discard" },
@@ -249,6 +253,9 @@ impl Scenario for C02 {
         cfg.response_timeout = Timeout::from_duration(Duration::from_millis(2000)).unwrap();
         cfg.auto_tasks_retry_strategy = RetryStrategy::new(Duration::from_secs(1), Duration::from_secs(4));
         cfg.keep_alive_timeout = None;
+        if c.scan_only {
+            cfg.event_scan_on_events_available = EventClasses::all();
+        }
         let Some(mut assoc) = pair.add_association(cfg) else {
             res.violation = Some(Violation::new("C02.P0", "setup", "add_association".to_string()));
             return res;
@@ -371,6 +378,17 @@ impl Scenario for C02 {
             if pair.failure().is_some() {
                 break;
             }
+        }
+        if c.scan_only {
+            // the updates have stopped: one command, whose response shows what is waiting
+            for _ in 0..40 {
+                Self::default_slot(&mut pair);
+            }
+            operate_n += 1;
+            let mut a2 = assoc.clone();
+            let cmd = Group12Var1::new(ControlCode::from_op_type(OpType::LatchOn), 1, operate_n, 0);
+            pair.call("operate", async move { a2.operate(CommandMode::DirectOperate, CommandBuilder::single_header_u8(cmd, 3)).await });
+            pair.pump();
         }
         // horizon: the default schedule with an ideal network for 120 virtual seconds
         let end = pair.k.now_ms() + 120_000;
@@ -546,17 +564,20 @@ fn alphabet(tier: &str) -> Vec<Dev> {
 fn scenarios(tier: &str) -> Vec<C02> {
     let corners_quick = [
         // unsolicited reporting only (no periodic poll)
-        Corner { unsol: true, small: true, events: 2, close: true, poll: false, extra: 0 },
-        Corner { unsol: false, small: false, events: 10, close: true, poll: true, extra: 0 },
-        Corner { unsol: true, small: false, events: 10, close: false, poll: true, extra: 0 },
-        Corner { unsol: false, small: true, events: 2, close: false, poll: true, extra: 0 },
+        Corner { unsol: true, small: true, events: 2, close: true, poll: false, extra: 0, scan_only: false },
+        Corner { unsol: false, small: false, events: 10, close: true, poll: true, extra: 0, scan_only: false },
+        Corner { unsol: true, small: false, events: 10, close: false, poll: true, extra: 0, scan_only: false },
+        Corner { unsol: false, small: true, events: 2, close: false, poll: true, extra: 0, scan_only: false },
     ];
     // bursts that overflow a type and need several fragments to report
-    let burst_corner = Corner { unsol: false, small: true, events: 10, close: true, poll: true, extra: 0 };
+    let burst_corner = Corner { unsol: false, small: true, events: 10, close: true, poll: true, extra: 0, scan_only: false };
     let burst_alphabet = vec![Dev::Default, Dev::Burst, Dev::Stall, Dev::Cut, Dev::Upd(Pt::Binary0), Dev::O2mFirstByte, Dev::BurstAll];
     // a database whose integrity response needs several fragments
-    let big_corner = Corner { unsol: false, small: true, events: 10, close: true, poll: true, extra: 120 };
+    let big_corner = Corner { unsol: false, small: true, events: 10, close: true, poll: true, extra: 120, scan_only: false };
     let big_alphabet = vec![Dev::Default, Dev::Upd(Pt::Analog0), Dev::Cut, Dev::Stall, Dev::O2mFirstByte, Dev::Upd(Pt::Binary0)];
+    // events learnt of only through response indications (event scan on events available)
+    let scan_corner = Corner { unsol: false, small: false, events: 10, close: true, poll: false, extra: 0, scan_only: true };
+    let scan_alphabet = vec![Dev::Default, Dev::Upd(Pt::Binary0), Dev::Upd(Pt::Analog0), Dev::Upd(Pt::Counter0), Dev::Operate, Dev::Stall, Dev::Cut];
     // forced events between detected ones, reported by unsolicited responses only
     let force_alphabet = vec![Dev::Default, Dev::Upd(Pt::Binary0), Dev::Force(Pt::Binary0), Dev::Stall];
     let mut v = Vec::new();
@@ -567,13 +588,14 @@ fn scenarios(tier: &str) -> Vec<C02> {
         v.push(C02 { corner: corners_quick[0], slots: 8, max_dev: 3, alphabet: alphabet(tier) });
         v.push(C02 { corner: burst_corner, slots: 10, max_dev: 2, alphabet: burst_alphabet });
         v.push(C02 { corner: big_corner, slots: 8, max_dev: 2, alphabet: big_alphabet });
+        v.push(C02 { corner: scan_corner, slots: 8, max_dev: 2, alphabet: scan_alphabet });
         v.push(C02 { corner: corners_quick[0], slots: 8, max_dev: 4, alphabet: force_alphabet });
     } else {
         for unsol in [false, true] {
             for small in [false, true] {
                 for events in [2u16, 10] {
                     for close in [false, true] {
-                        let c = Corner { unsol, small, events, close, poll: !unsol || close, extra: 0 };
+                        let c = Corner { unsol, small, events, close, poll: !unsol || close, extra: 0, scan_only: false };
                         v.push(C02 { corner: c, slots: 12, max_dev: 2, alphabet: alphabet(tier) });
                     }
                 }
@@ -586,6 +608,7 @@ fn scenarios(tier: &str) -> Vec<C02> {
         v.push(C02 { corner: burst_corner, slots: 12, max_dev: 3, alphabet: burst_alphabet.clone() });
         v.push(C02 { corner: Corner { unsol: true, ..burst_corner }, slots: 12, max_dev: 3, alphabet: burst_alphabet });
         v.push(C02 { corner: big_corner, slots: 12, max_dev: 3, alphabet: big_alphabet.clone() });
+        v.push(C02 { corner: scan_corner, slots: 10, max_dev: 3, alphabet: scan_alphabet.clone() });
         v.push(C02 { corner: Corner { unsol: true, ..big_corner }, slots: 10, max_dev: 3, alphabet: big_alphabet });
         let mut fa = force_alphabet.clone();
         fa.extend([Dev::Force(Pt::Analog0), Dev::Upd(Pt::Analog0), Dev::Cut]);
